@@ -99,14 +99,25 @@ def rowParams {κ : Type} [BEq κ] (caller : List (κ × Rat)) (observed : List 
     | some col => (kv.1, col.getD i kv.2)
     | none => kv
 
+/-- Parameters seen by observation row `i` when the batch also carries a parameter batch
+    (`batch.param_batch_dict`): `evaluate` first replaces the caller's value of every generated key
+    by the generated table, then — in the observation block only — every observed key by the
+    observed table, and maps axis 0 of the keys of both.  Row `i` therefore sees row `i` of the
+    observed table for an observed key (also when the key is generated too), row `i` of the
+    generated table for a key that is generated only, the caller's value otherwise. -/
+def obsRowParams {κ : Type} [BEq κ] (caller : List (κ × Rat)) (pbatch observed : List (κ × List Rat))
+    (i : Nat) : List (κ × Rat) :=
+  rowParams (rowParams caller pbatch i) observed i
+
 /-- `observations_loss_apply` (PINN branch): `val = vmap(u(·)[u.slice_solution])(pinn_in, params)[:, obs_slice]`;
-    `mean(sum(w * (val - observed_values)**2, axis=-1))`, row `i` evaluated with `rowParams … i`.
+    `mean(sum(w * (val - observed_values)**2, axis=-1))`, row `i` evaluated with `obsRowParams … i`.
     `ins i`, `vals i` are row `i` of the observed inputs / values, `n` the number of rows. -/
 def obsTerm {I κ : Type} [BEq κ] (w : Weight) (u : I → List (κ × Rat) → List Rat)
-    (sliceSol obsSlice : Slice) (caller : List (κ × Rat)) (observed : List (κ × List Rat))
+    (sliceSol obsSlice : Slice) (caller : List (κ × Rat)) (pbatch observed : List (κ × List Rat))
     (ins : Nat → I) (vals : Nat → List Rat) (n : Nat) : Rat :=
   mean ((List.range n).map fun i =>
-    wsq w (sub (obsSlice.apply (sliceSol.apply (u (ins i) (rowParams caller observed i)))) (vals i)))
+    wsq w (sub (obsSlice.apply (sliceSol.apply (u (ins i) (obsRowParams caller pbatch observed i))))
+      (vals i)))
 
 /-! ### assembly: `evaluate` -/
 
@@ -164,13 +175,14 @@ structure ObsCfg (I κ : Type) where
   sliceSol : Slice
   obsSlice : Slice
   caller   : List (κ × Rat)
+  pbatch   : List (κ × List Rat)
   observed : List (κ × List Rat)
   ins      : Nat → I
   vals     : Nat → List Rat
   n        : Nat
 
 def ObsCfg.term {I κ : Type} [BEq κ] (o : ObsCfg I κ) : Rat :=
-  obsTerm o.w o.u o.sliceSol o.obsSlice o.caller o.observed o.ins o.vals o.n
+  obsTerm o.w o.u o.sliceSol o.obsSlice o.caller o.pbatch o.observed o.ins o.vals o.n
 
 /-- `LossODE`: the dynamic term runs over `batch.temporal_batch`. -/
 def lossODE {T I κ : Type} [BEq κ] (dyn : Option (Weight × (T → List Rat)))
